@@ -267,6 +267,9 @@ Apply0(s, op) ==
     \* abrupt close: no farewell; the line must not have been dead already (the driver looks before closing)
     [] op.k = "aclose" -> Plain(ClientClose(s)) /\ ~op.waseof
     [] op.k = "dump" -> Plain(Dump(op))
+    \* the bus never refuses or ignores a connection attempt (limits bite at Hello); anything unknown is no behaviour
+    [] op.k = "connect_failed" -> FALSE
+    [] OTHER -> FALSE
 
 \* with fault injection a request either runs normally or is aborted as a whole
 Apply(s, op) ==
